@@ -2,6 +2,10 @@
 
 package main
 
+import "time"
+
 const haveMapHook = false
 
 func setRuntimeHook(f func(count, B, r, goid uintptr) uintptr) {}
+
+func setNowHook(f func() (time.Time, bool)) {}
